@@ -84,3 +84,56 @@ def marker_rle(rng, N):
         bit = 1 - bit
         left -= c
     return out
+
+
+def build_element(rng, regs, SR, N, chans, kinds=None, funcs=None, waits=False, markers=True, flags=False,
+                  arr_markers=True, levels=None):
+    """An element with the given channels (in that insertion order); returns (register, ops)."""
+    e = regs.E()
+    ops = [("ENew", e)]
+    for c in chans:
+        kind = (kinds or {}).get(c) or rng.choice(["bp", "bp", "arr"])
+        if kind == "bp":
+            segs = aligned_segments(rng, SR, N, funcs=funcs, waits=waits)
+            r, o = build_bp(rng, regs, SR, segs, markers=markers)
+            ops += o + [("EAddBp", e, c, r)]
+            if flags and rng.random() < 0.5:
+                ops.append(("EAddFlags", e, c, [rng.choice([0, 1, 2, 3, 4, "", "H", "L", "T", "P"]) for _ in range(4)]))
+        else:
+            ms = [("m1", marker_rle(rng, N)), ("m2", marker_rle(rng, N))] if arr_markers else []
+            ops.append(("EAddArray", e, c, const_rle(rng, N, levels or (0.0, 0.25, -0.25, 0.125)), SR, ms))
+    return e, ops
+
+
+SAFE_FUNCS = ["ramp", "ua"]          # bounded within [-0.5, 0.5] with safe_args
+
+
+def safe_args(rng, f, dur=None):
+    if f == "ramp":
+        return [rng.choice([0, 0.25, -0.25, rng.uniform(-0.4, 0.4)]), rng.choice([0, 0.125, rng.uniform(-0.4, 0.4)])]
+    if f == "ua":
+        return [rng.choice([0.25, -0.125, 0.375])]
+    if f == "sine":
+        return [rng.choice([1, 2]) / dur, rng.uniform(0.05, 0.3), rng.choice([0, 0.1]), rng.choice([0, 0.5])]
+    if f == "gaussian":
+        return [rng.uniform(0.05, 0.35), dur * rng.uniform(0.05, 0.3), 0, rng.choice([0, 0.05])]
+    raise KeyError(f)
+
+
+def safe_element(rng, regs, SR, N, chans, kinds=None, funcs=SAFE_FUNCS, waits=False, flags=False, nseg=None):
+    """Like build_element but every voltage stays inside [-0.5, 0.5] (for the output back ends)."""
+    e = regs.E()
+    ops = [("ENew", e)]
+    for c in chans:
+        kind = (kinds or {}).get(c) or rng.choice(["bp", "bp", "arr"])
+        if kind == "bp":
+            segs = aligned_segments(rng, SR, N, nseg=nseg, funcs=funcs, waits=waits)
+            segs = [(f, (a if f == "waituntil" else safe_args(rng, f, float(d))), d, nm, n) for f, a, d, nm, n in segs]
+            r, o = build_bp(rng, regs, SR, segs, markers=True)
+            ops += o + [("EAddBp", e, c, r)]
+            if flags and rng.random() < 0.5:
+                ops.append(("EAddFlags", e, c, [rng.choice([0, 1, 2, 3, 4, "", "H", "L", "T", "P"]) for _ in range(4)]))
+        else:
+            ops.append(("EAddArray", e, c, const_rle(rng, N, (0.0, 0.25, -0.25, 0.125)), SR,
+                        [("m1", marker_rle(rng, N)), ("m2", marker_rle(rng, N))]))
+    return e, ops
